@@ -3,7 +3,7 @@ import SJ.Proofs.SourceLevelA
 import SJ.Proofs.SourceLevelD
 import SJ.Proofs.SourceLevelE
 import SJ.Proofs.SourceLevelF
-import SJ.Proofs.SourceLevelG
+import SJ.Proofs.SourceLevelH
 set_option linter.unusedVariables false
 /-
 C12 — source level. The theorems of Properties/C12.lean composed with the source ties of DESIGN §6.3: each statement
@@ -392,21 +392,31 @@ theorem C12_source_firstType (pj : PJ) (p e : Nat) (es : LVals) (hok : Ok pj (.a
       s.tape = pj.tape :=
   SJ.SourceLevelF.C12_source_firstType pj p e es hok fuel hf
 
-open SJ SJ.Generated SJ.GoSem SJ.GoIter SJ.GoObject SJ.GoInterface SJ.Layout SJ.WalkLayout SJ.Lookup in
-/-- **`Object.Map(nil)` of /repo on an object of a document.** On a tape denoting the object `ms` (`Ok`, tight),
-    running the regenerated `Object.Map` with a nil destination returns the map with every member inserted in order
-    (the last duplicate wins, values as `Interface()` returns them) and leaves the tape unchanged — no function of the
-    hand model in the conclusion. Premise `hdef` is executable: the fragment of the model that the tie covers does
-    not run out of its own fuel on this object and meets no root entry inside it (it is not derived from `Ok` here). -/
+open SJ SJ.Generated SJ.GoSem SJ.GoIter SJ.GoObject SJ.Layout SJ.WalkSafe SJ.WalkLayout SJ.Lookup SJ.GoInterface in
+/-- **`Object.Map(nil)` of /repo on an object of a document** (`SourceLevelG.source_map_of_document` without the
+    executable premise `hdef`): on a tape denoting the object `ms` (`Ok`, tight), running the regenerated `Object.Map` with
+    a nil destination returns the map with every member inserted in order (the last duplicate wins, values as
+    `Interface()` returns them) and leaves the tape unchanged. -/
 theorem C12_source_map (pj : PJ) (hb : BufOK pj) (hsz : pj.tape.size < 2^63) (p e : Nat) (ms : LMems)
     (hok : Ok pj (.obj p e ms)) (ht : TightMs ms)
-    (hdef : mapV pj { lim := e, off := p + 1 } [] (fuelOf pj) ≠ .diverge)
     (F : Nat) (hF : goFuel pj (fuelOf pj) ≤ F) :
     ∃ s, runFun goFuns goObject_Map F
         ⟨[("o.off", .int ((p + 1 : Nat) : Int)), ("o.lim", .int (e : Int)), ("dst", .iface (.obj [])), ("dst==nil", .bool true)] ++
           bufEnv pj, pj.tape⟩ =
       .ret s [.iface (.obj ((toIMems ms).foldl (fun m kv => mapInsert m kv.1 kv.2) [])), .bool false] ∧
       s.tape = pj.tape :=
-  SJ.SourceLevelG.source_map_of_document pj hb hsz p e ms hok ht hdef F hF
+  SJ.SourceLevelH.source_map_of_document_full pj hb hsz p e ms hok ht F hF
+
+open SJ SJ.Generated SJ.GoSem SJ.GoIter SJ.GoObject SJ.Layout SJ.WalkSafe SJ.WalkLayout SJ.Lookup SJ.GoInterface in
+/-- **`Interface()` of /repo on a node of a document.** On a tape denoting the value `v` (`Ok`, tight) with the iterator
+    standing on it, running the regenerated `Iter.Interface` returns `toIVal v` — objects as maps with the last
+    duplicate winning, arrays in order, numbers by their tag — with a nil error, the tape unchanged and the iterator
+    where it was. No function of the hand model in the conclusion. -/
+theorem C12_source_interface (pj : PJ) (hb : BufOK pj) (hsz : pj.tape.size < 2^63) (v : LVal) (i : Iter)
+    (hok : Ok pj v) (ht : Tight v) (hon : OnNode pj v i) (hl : i.lim ≤ pj.tape.size)
+    (F : Nat) (hF : goFuel pj (fuelOf pj) ≤ F) :
+    ∃ s, runFun goFuns goIter_Interface F ⟨envOf "i" i ++ bufEnv pj, pj.tape⟩ =
+      .ret s [.iface (toIVal v), .bool false] ∧ s.tape = pj.tape ∧ iterAt s.env "i" = some i :=
+  SJ.SourceLevelH.source_interface_of_node pj hb hsz v i hok ht hon hl F hF
 
 end SJ.Properties.C12
